@@ -55,10 +55,17 @@ string, blanks, real names changed by case / leading / trailing characters, the 
 `name=value` variables anywhere, explicit `run` / default command, --single, default_tasks holding such names.  C1: stubbed
 runner == enc_cmd (doit_main ..) (Model/Select.v Section Cli) + an oracle from the task list and the command line alone;
 C2: complete runs in-process through check_b; C3: the same through `python -m doit` in a sub-process.
+
+Part D (harness/c12_single.py, round G, seeded C12g): several groups whose dependencies cross the group borders (the definition of
+a group / a sub-task names a plain task, another group, a sub-task of another group by name or wild-card, `*:x` over own and foreign
+sub-tasks, file_dep on a foreign target) x selections of groups / sub-tasks / patterns / targets x --single.  D1: stubbed runner ==
+enc_cmd (doit_main ..) + an oracle on the selected list and the task_dep of every task from the declarations alone (a selected group
+depends on exactly the sub-tasks declared in it); D2 / D3: complete runs in-process / in a sub-process through check_b.
 """
 import fnmatch, io, os, re, sys
 import common
 import c12_cli
+import c12_single
 from common import Outcome
 
 PRE = 'From DoitV Require Import Base Select.\nOpen Scope N_scope.\n'
@@ -1280,13 +1287,16 @@ def run(ctx):
     out.rule = ('A: random task lists (plain, groups+sub-tasks, delayed creators, wild-card task_dep, implicit deps via targets, load errors) x '
                 'random selections (names, globs, targets, unknown, delayed sub-task/regex) x default_tasks x --single x --auto-delayed-regex; '
                 'non-trivial = >= 3 tasks and a non-empty selection or default, distinct by observed outcome.  '
-                'B: generated dodo modules run for real; non-trivial = closure of >= 3 tasks, or a rejected selection.  ' + c12_cli.RULE)
+                'B: generated dodo modules run for real; non-trivial = closure of >= 3 tasks, or a rejected selection.  ' + c12_cli.RULE
+                + '.  ' + c12_single.RULE)
     cases = part_a(ctx, out)
     me = sys.modules[__name__]
     cases += c12_cli.part_c1(ctx, out, me)
+    cases += c12_single.part_d1(ctx, out, me)
     out.evaluations += len(cases)
     part_b(ctx, out)
     c12_cli.part_c23(ctx, out, me)
+    c12_single.part_d23(ctx, out, me)
     bad = common.compare_with_model(ctx, PRE, cases)
     out.traces_validated = len(cases)
     for i, m in bad:
@@ -1303,7 +1313,8 @@ def run(ctx):
                        '--auto-delayed-regex or unknown options, no "--", "-", --version, --help, no loader options (Part C3 passes -f through the real parser)']
     out.extra['trusted_base'] = ['rendering of real Task attributes into Model/Select.v tables and of exceptions into the error enum (harness/c12.py)',
                                  'the closure oracle of Part B (harness/c12.py oracle_b)',
-                                 'the documented reading of a command line and the selection oracle of Part C (harness/c12_cli.py cli_reading, oracle_c1)']
+                                 'the documented reading of a command line and the selection oracle of Part C (harness/c12_cli.py cli_reading, oracle_c1)',
+                                 'the --single oracle of Part D (harness/c12_single.py expected_d1)']
     return out
 
 
@@ -1312,6 +1323,8 @@ def replay(ctx, payload):
     case = payload.get('case', {})
     if case.get('part') == 'C1':
         return c12_cli.replay_c1(ctx, payload, sys.modules[__name__])
+    if case.get('part') == 'D1':
+        return c12_single.replay_d1(ctx, payload, sys.modules[__name__])
     if case.get('part') == 'A' and 'tasks' in case:
         info = {}
         obs = run_a1(dict(case, sel_none=case.get('sel_none', False)), Intern(), info)
